@@ -44,7 +44,7 @@ COMPONENTS = {"real": ["smpl_extract: image objects, lazy directory realisation,
 ASSUMPTIONS = ["clients are cooperative: a switch happens between two public calls (next/read/seek/ls), which is the only place a "
                "single-threaded caller can interleave", "each data client owns a distinct sample's stream (two clients on the very same "
                "stream object would share its cursor by definition)"]
-EXPECTED_PROBES = ["reseek_after_switch", "switch_on_sector_boundary", "lazy_ls_between_blocks", "foreign_seek_to_expected_position",
+EXPECTED_PROBES = ["reseek_after_switch", "switch_at_sector_edge", "switch_on_sector_boundary", "lazy_ls_between_blocks", "foreign_seek_to_expected_position",
                    "switch_after_seek", "stereo_pair_client", "reversed_stream_client", "mdf_container", "cdda", "roland", "akai", "same_sample_second_view", "sweep_interleavings", "stream_reopened"]
 SHRINK = {"max_attempts": 150, "max_seconds": 120.0, "simple_values": {"policy": ["contiguous"], "block": [4096]}}
 
@@ -53,9 +53,25 @@ SHRINK = {"max_attempts": 150, "max_seconds": 120.0, "simple_values": {"policy":
 # generation
 # --------------------------------------------------------------------------
 
-def _reader_script(rng: random.Random, L: int, align: int, sector: int) -> List[list]:
+def _reader_script(rng: random.Random, L: int, align: int, sector: int, phase: int = 0) -> List[list]:
     ops = []
     pos = 0
+    if sector and rng.random() < 0.35:
+        # reads that end exactly on the edges of the *underlying* sector / cluster grid (the view starts `phase` bytes into a
+        # sector): whatever a stream remembers about "where the parent is" at such an edge is stale once another client ran
+        first = (sector - phase) % sector or sector
+        if rng.random() < 0.3:
+            k = rng.randint(0, max(0, L // sector))
+            ops.append(["seek", ((first + k * sector) // align) * align, 0])
+            pos = min(L, ops[-1][1])
+        else:
+            ops.append(["read", (first // align) * align])
+            pos = min(L, ops[-1][1])
+        for _ in range(rng.randint(2, 10)):
+            n = rng.choice([sector, sector, sector, 2 * sector, sector // 2, sector // 2])
+            ops.append(["read", n])
+            pos = min(L, pos + n)
+        return ops
     for _ in range(rng.randint(2, 14)):
         if rng.random() < 0.4:
             t = rng.choice([0, L, rng.randint(0, L), (rng.randint(0, L) // max(1, sector)) * sector])
@@ -159,7 +175,7 @@ def gen(rng: random.Random, tier: str, index: int) -> dict:
     if fmt in ("akai", "akai2352"):
         model = gen_akai(rng, max_parts=2, max_vols=3, max_files=5, min_files=1, programs=True, big=(fmt == "akai"))
     elif fmt == "roland":
-        model = gen_roland(rng, max_samples=5, max_perf=3, max_vols=2, max_clusters=2)
+        model = gen_roland(rng, max_samples=5, max_perf=3, max_vols=2, max_clusters=3, long_bias=rng.choice([0.0, 0.5, 0.8]))
     else:
         model = gen_cdda_model(rng)
     sc = {"fmt": fmt, "model": model, "block": rng.choice([4, 64, 510, 4096, 4096, 8192]), "clients": [], "schedule_seed": rng.getrandbits(40),
@@ -179,7 +195,7 @@ def gen(rng: random.Random, tier: str, index: int) -> dict:
         else:
             align = 4 if fmt == "cdda" else 2
             sector = {"akai": 8192, "akai2352": 2048, "roland": 9216, "cdda": 2352}[fmt]
-            sc["clients"].append({"k": "R", "target": t["path"], "ops": _reader_script(rng, t["len"], align, sector)})
+            sc["clients"].append({"k": "R", "target": t["path"], "ops": _reader_script(rng, t["len"], align, sector, t.get("phase", 0))})
     if fmt == "roland" and rng.random() < 0.3 and targets:
         t = targets[0]
         sc["clients"].append({"k": "R", "target": t["path"], "ops": _reader_script(rng, t["len"], 2, 9216), "second_view": True})
@@ -205,7 +221,7 @@ def _data_targets(sc: dict) -> List[dict]:
                         continue
                     n = f.get("end", f["n"]) - f.get("start", 0)
                     path = "%s/%s/%s" % (A.partition_letter(pi), v["name"], f["name"])
-                    out.append({"path": path, "len": 2 * n})
+                    out.append({"path": path, "len": 2 * n, "phase": (A.SAMPLE_HDR + 2 * f.get("start", 0)) % 8192})
     elif fmt == "roland":
         vols = [(v["name"], v["performances"]) for v in m["volumes"]]
         orph = R.orphan_performances(m)
@@ -222,7 +238,8 @@ def _data_targets(sc: dict) -> List[dict]:
                         continue
                     used.add(sidx)
                     sm = m["samples"][sidx]
-                    out.append({"path": "%s/%s/%s" % (vn, m["performances"][p]["name"], sm["name"]), "len": len(R.expected_pcm(sm)), "sidx": sidx})
+                    out.append({"path": "%s/%s/%s" % (vn, m["performances"][p]["name"], sm["name"]), "len": len(R.expected_pcm(sm)), "sidx": sidx,
+                                "phase": (2 * sm["points"][0][0]) % R.CL})
     else:
         for title, pcm in C.expected_tracks(m):
             out.append({"path": title, "len": len(pcm)})
@@ -585,7 +602,12 @@ def run(sc: dict) -> RunResult:
                     c = runnable[d]
                 else:
                     others = [x for x in runnable if x is not last and isinstance(x, (TClient, RClient))]
-                    if last is not None and getattr(last, "just_seeked", False) and others and rng.random() < 0.8:
+                    if last is not None and getattr(last, "at_edge", False) and not last.done and others and rng.random() < 0.8:
+                        # in-flight state: the last block ended exactly on a sector edge of the image - another data client runs
+                        # before the stream continues into the (possibly adjacent) next sector
+                        c = rng.choice(others)
+                        res.probes["switch_at_sector_edge"] += 1
+                    elif last is not None and getattr(last, "just_seeked", False) and others and rng.random() < 0.8:
                         # in-flight state: a stream was just positioned but not read - let another data client run now
                         c = rng.choice(others)
                         res.probes["switch_after_seek"] += 1
@@ -612,6 +634,7 @@ def run(sc: dict) -> RunResult:
                     err = "client_exception: client %d (%s %s) raised %s: %s" % (c.cid, c.spec["k"], c.spec.get("target", ""), type(e).__name__, str(e)[:120])
                 c.steps += 1
                 c.saved_cursor = sf.peek_cursor()
+                c.at_edge = isinstance(c, (TClient, RClient)) and sf.peek_cursor() % 2048 == 0 and sf.peek_cursor() > 0
                 schedule.append(c.cid)
                 if isinstance(c, (TClient, RClient)) and last is not None and last is not c and sf.n_seek > before_seeks:
                     res.probes["reseek_after_switch"] += 1
